@@ -22,6 +22,15 @@ def run(ctx) -> None:
     ctx.analysed_fn("OperandsParser._process_operand_elem", "OperandsParser.form_full_operand_with_4_elements",
                     "OperandsParser.form_full_operand_with_3_elements", "OperandsParser.form_full_operand_with_1_element",
                     "OperandsParser.parse_operands", "LineParser.get_splitted_operands", "LineParser.parse_instruction")
+    # S: decided on token templates (every instantiation at once): the normal form of each operand form of the property,
+    # the splitting of operand lists, and whole lines (branch target without its <symbol>, operand count and order)
+    from .. import shapes
+    Is = make_interp(ctx.p)
+    shapes.normal_form_rule(ctx, Is, "C09.S1.normal-form-of-every-listed-operand-form", listed_only=False)
+    shapes.operand_split_rule(ctx, Is, "C09.S2.commas-split-between-operands-only")
+    shapes.line_record_rule(ctx, Is, "C09.S3.line-to-record")
+    if ctx.tier == "thorough":
+        shapes.thorough_line_rule(ctx, Is, "C09.S3.line-to-record")
     I = make_interp(ctx.p)
     table_check(ctx, "C09.N1.rewrite-table", I)
     # N2
@@ -86,12 +95,3 @@ def run(ctx) -> None:
             ctx.check(ok, "C09.N3.operand-token-class", "operand token of the instruction line regex", repr(sh.group(3)),
                       "the operand token is one run of characters excluding blank and '#' (drops <symbol> and comments, "
                       "keeps everything else)")
-    # S: decided on token templates (every instantiation at once): the normal form of each operand form of the property,
-    # the splitting of operand lists, and whole lines (branch target without its <symbol>, operand count and order)
-    from .. import shapes
-    Is = make_interp(ctx.p)
-    shapes.normal_form_rule(ctx, Is, "C09.S1.normal-form-of-every-listed-operand-form")
-    shapes.operand_split_rule(ctx, Is, "C09.S2.commas-split-between-operands-only")
-    shapes.line_record_rule(ctx, Is, "C09.S3.line-to-record")
-    if ctx.tier == "thorough":
-        shapes.thorough_line_rule(ctx, Is, "C09.S3.line-to-record")
